@@ -179,6 +179,16 @@ func (k *KVStore) NewEntry() storage.Entry {
 	return entry.New()
 }
 
+// deleteSupersededVersions removes the copies of the key from every table except
+// the most recent one. A key must have at most one live version in a KVStore instance,
+// otherwise Delete exposes the older version again and Stats reports a wrong length.
+func (k *KVStore) deleteSupersededVersions(hkey uint64) {
+	for i := len(k.tables) - 2; i >= 0; i-- {
+		// Delete only returns table.ErrHKeyNotFound, if the table doesn't have the key.
+		_ = k.tables[i].Delete(hkey)
+	}
+}
+
 // PutRaw sets the raw value for the given key.
 func (k *KVStore) PutRaw(hkey uint64, value []byte) error {
 	if uint64(len(value)) > k.tableSize {
@@ -210,6 +220,7 @@ func (k *KVStore) PutRaw(hkey uint64, value []byte) error {
 		break
 	}
 
+	k.deleteSupersededVersions(hkey)
 	return nil
 }
 
@@ -245,6 +256,7 @@ func (k *KVStore) Put(hkey uint64, value storage.Entry) error {
 		break
 	}
 
+	k.deleteSupersededVersions(hkey)
 	return nil
 }
 
